@@ -231,9 +231,15 @@ def check_wavedrom(ctx, wf):
     if not tests:
         ctx.error('C15.d', 'run-length comparison not recognised')
         return
-    v, last = tests[0].left.id, tests[0].comparators[0].id
-    if v not in al:
-        v, last = last, v
+    n1, n2 = tests[0].left.id, tests[0].comparators[0].id
+    # `last` is the one that is (re)assigned from the other at the end of every iteration: last = v
+    v, last = n1, n2
+    for x in ast.walk(il):
+        if isinstance(x, ast.Assign) and len(x.targets) == 1 and isinstance(x.targets[0], ast.Name) and isinstance(x.value, ast.Name):
+            if (x.targets[0].id, x.value.id) == (n1, n2):
+                v, last = n2, n1
+            elif (x.targets[0].id, x.value.id) == (n2, n1):
+                v, last = n1, n2
     ok = True
     # last reset per row before the inner loop
     pre = ol.body[:ol.body.index(il)]
@@ -258,6 +264,11 @@ def check_wavedrom(ctx, wf):
             cnt_ok = (dd is not None and norm(dd).startswith('self.data[')) or inner_arg.startswith('self.data[')
         if arg.startswith('len('):
             cnt_ok = True
+    if not cnt_ok and isinstance(il.iter, ast.Name):
+        dd = rowdefs.get(il.iter.id)
+        cnt_ok = dd is not None and norm(dd).startswith('self.data[')
+    if not cnt_ok and norm(il.iter).startswith('self.data['):
+        cnt_ok = True
     if not cnt_ok:
         ok = False
         ctx.violation('C15.d', 'row-spans-all-samples', 'the sample loop `for %s in %s` does not run once per recorded sample of the row' % (norm(il.target), norm(il.iter)), where,
@@ -305,7 +316,9 @@ def check_wavedrom(ctx, wf):
     tail = m.body[m.body.index(ol) + 1:]
     clk_loops = [s for s in tail if isinstance(s, ast.For)]
     txt = ' '.join(norm(s) for s in tail)
-    if not (clk_loops and norm(clk_loops[0].iter).replace(' ', '') == itx) and '* numclks' not in txt and '*numclks' not in txt:
+    lens = [k for k, d in rowdefs.items() if norm(d).startswith('len(')]
+    mult = any(('* %s' % k) in txt or ('*%s' % k) in txt for k in lens + ['numclks'])
+    if not (clk_loops and norm(clk_loops[0].iter).replace(' ', '') == itx) and not mult:
         ok = False
         ctx.violation('C15.d', 'clock-row-span', 'the clock row does not span the recorded number of cycles', where)
     if ok:
